@@ -466,6 +466,39 @@ func (g *c05Gen) mutateLedger(ctx sdk.Context) {
 	}
 }
 
+// changeAssetList replaces the supported-asset list of a registered AVS (empty list, or another random subset) after
+// operators may already have acquired value under the old list; through the public UpdateAVSInfo(UpdateAction) or directly.
+func (g *c05Gen) changeAssetList(ctx sdk.Context, addr string, empty bool) bool {
+	app := g.w.Env.App
+	res, err := app.AVSManagerKeeper.GetAVSInfo(ctx, addr)
+	if err != nil {
+		return false
+	}
+	info := res.Info
+	list := []string{}
+	if !empty {
+		for ai, as := range g.w.Assets {
+			if ai < 4 && g.rng.Intn(2) == 0 {
+				list = append(list, as.ID)
+			}
+		}
+	}
+	if g.rng.Intn(2) == 0 {
+		err := app.AVSManagerKeeper.UpdateAVSInfo(ctx, &avstypes.AVSRegisterOrDeregisterParams{
+			AvsAddress: addr, AssetID: list, MinSelfDelegation: info.MinSelfDelegation, Action: avskeeper.UpdateAction,
+		})
+		if err == nil {
+			g.cw.Count(fmt.Sprintf("avs.assets-changed-via-UpdateAVSInfo(len=%d)", len(list)))
+			return true
+		}
+		g.cw.Count("avs.UpdateAVSInfo.err")
+	}
+	info.AssetIDs = list
+	_ = app.AVSManagerKeeper.SetAVSInfo(ctx, info)
+	g.cw.Count(fmt.Sprintf("avs.assets-changed-directly(len=%d)", len(list)))
+	return true
+}
+
 func (g *c05Gen) pricesGE1(ctx sdk.Context) {
 	// statement domain: prices >= 1; randomPrices already produces positive prices, zero and missing rounds (defaults)
 	g.randomPrices(ctx)
@@ -515,6 +548,48 @@ func runC05(a *Args) error {
 		g.stats(st)
 		cw.Add(cApp("mkCase", cList([]string{st.coq()}), c05OptInsCoq(g.optins)), c05Case{Suite: "c05", NT: true, Steps: []c05Step{st}, OptIns: g.optins, Tags: []string{"regress-C05-avs-address-case"}})
 		cw.Count("directed.avs-address-case")
+	}
+
+	// ---- directed scenario: operators acquire value under a non-empty asset list, the AVS then drops all its assets
+	// (UpdateAVSInfo with an empty array): at the next epoch end the rows must still be there, with value 0 ----
+	{
+		ctx, _ := base.CacheContext()
+		ids := &c04IDs{m: map[string]int{}}
+		g.optins = nil
+		ctx = ctx.WithBlockHeight(5)
+		addr := c05AvsAddr(0x70)
+		if err := app.AVSManagerKeeper.UpdateAVSInfo(ctx, &avstypes.AVSRegisterOrDeregisterParams{
+			AvsName: "dropsassets", AvsAddress: addr, AssetID: []string{w.Assets[0].ID}, EpochIdentifier: "minute", UnbondingPeriod: 2, Action: avskeeper.RegisterAction,
+		}); err != nil {
+			panic(err)
+		}
+		for oi := 0; oi < 2; oi++ {
+			if err := g.optIn(ctx, ids, oi, addr, true); err != nil {
+				panic(err)
+			}
+		}
+		info, _ := app.AVSManagerKeeper.GetAVSInfo(ctx, addr)
+		n := int64(info.Info.StartingEpoch)
+		var steps []c05Step
+		for k := 0; k < 2; k++ {
+			if k == 1 {
+				if err := app.AVSManagerKeeper.UpdateAVSInfo(ctx, &avstypes.AVSRegisterOrDeregisterParams{AvsAddress: addr, AssetID: []string{}, Action: avskeeper.UpdateAction}); err != nil {
+					panic(err)
+				}
+			}
+			st := c05Step{Mode: "hook"}
+			st.Env = g.observe(ctx, ids)
+			st.Before = g.dumpState(ctx, ids)
+			st.Calls = [][2]int64{{int64(c05Epochs["minute"]), n + int64(k)}}
+			app.OperatorKeeper.EpochsHooks().AfterEpochEnd(ctx, "minute", n+int64(k))
+			st.After = g.dumpState(ctx, ids)
+			st.Queries = g.queries(ctx, ids, st.Env)
+			st.Votes = g.votes(ctx)
+			g.stats(st)
+			steps = append(steps, st)
+		}
+		cw.Add(cApp("mkCase", cList([]string{steps[0].coq(), steps[1].coq()}), c05OptInsCoq(g.optins)), c05Case{Suite: "c05", NT: true, Steps: steps, OptIns: g.optins, Tags: []string{"directed-empty-asset-list"}})
+		cw.Count("directed.empty-asset-list")
 	}
 
 	for cw.n < a.N {
@@ -660,6 +735,15 @@ func runC05(a *Args) error {
 			if s > 0 || rng.Intn(2) == 0 {
 				g.mutateLedger(ctx)
 			}
+			forceIdent := ""
+			if s > 0 && rng.Intn(3) == 0 {
+				// the AVS changes (half of the time: drops) its supported assets after values were recorded; make sure its
+				// identifier ends next
+				c := cfgs[rng.Intn(len(cfgs))]
+				if g.changeAssetList(ctx, c.addr, rng.Intn(2) == 0) {
+					forceIdent = c.ident
+				}
+			}
 			if rng.Intn(2) == 0 {
 				c := cfgs[rng.Intn(len(cfgs))]
 				op := w.Env.Operators[rng.Intn(len(w.Env.Operators))]
@@ -687,6 +771,9 @@ func runC05(a *Args) error {
 			st.Env = g.observe(ctx, ids)
 			st.Before = g.dumpState(ctx, ids)
 			mode := rng.Intn(3)
+			if forceIdent != "" {
+				mode = 0
+			}
 			panicked := false
 			if mode < 2 {
 				// the operator module's epoch hook, directly
@@ -694,6 +781,9 @@ func runC05(a *Args) error {
 				ident := c05EpochNames[rng.Intn(2)]
 				if rng.Intn(4) == 0 {
 					ident = c05EpochNames[rng.Intn(4)]
+				}
+				if forceIdent != "" {
+					ident = forceIdent
 				}
 				n := num + int64(s)
 				st.Calls = [][2]int64{{int64(c05Epochs[ident]), n}}
@@ -787,6 +877,14 @@ func (g *c05Gen) stats(st c05Step) {
 			continue
 		}
 		g.cw.Count("obs.avs.selected")
+		if a.AssetsOK && len(a.Assets) == 0 {
+			g.cw.Count("obs.avs.selected-with-empty-asset-list")
+			for _, r := range st.Before.Rows {
+				if r.Avs == a.ID && r.Total != "0" {
+					g.cw.Count("obs.row.nonzero-before-empty-list-update")
+				}
+			}
+		}
 		if !a.AssetsOK {
 			g.cw.Count("obs.avs.assets-error(wiped)")
 			continue
